@@ -665,8 +665,13 @@ class Drillhole(Points):
                 return_mapping=True,
                 collocation_distance=collocation_distance,
             )
+            if input_values.dtype.kind in ["U", "S"]:
+                nan_values = np.array([""] * self.n_vertices, dtype=input_values.dtype)
+            else:
+                nan_values = np.ones(self.n_vertices) * np.nan
+
             values = merge_arrays(
-                np.ones(self.n_vertices) * np.nan,
+                nan_values,
                 input_values,
                 replace="B->A",
                 mapping=indices,
